@@ -110,3 +110,25 @@ Definition gha_loc_oracle (c : bytes * node) : N :=
            | Some pk => if forallb (loc_exact_b content) pk then 0 else if forallb (gha_loc_fine_b content) pk then 7 else 6
            end
   end.
+
+(* C05 for pyproject.toml: hypotheses and conclusion of C05_pyproject_structural on a real tree, with pep508_rs's real
+   answers as the oracle.  0 = hypotheses and conclusion hold; 8 = a tree outside the hypotheses (node_safe / quoted
+   string tokens); 9 = pep508_rs's answers contradict pep_sane (the assumption about the library is wrong);
+   6 = hypotheses hold and a location is unsound (contradicts the theorem) *)
+From VL Require Import Proofs.PyLocProofs.
+Definition pep_of_tape (tape : list (bytes * option (bytes * bytes))) (s : bytes) : pep :=
+  match req_of_tape tape s with Some (n, sp) => PepSpec n sp | None => PepErr end.
+Definition loc_sound_b (content : bytes) (p : pkg) : bool := (p_start p <=? p_end p) && (p_end p <=? blen content).
+Definition tape_sane (tape : list (bytes * option (bytes * bytes))) : bool :=
+  forallb (fun e => match snd e with
+                    | Some (n, sp) => pep_sane_at (34 :: fst e ++ [34]) n sp && pep_sane_at (39 :: fst e ++ [39]) n sp
+                    | None => true
+                    end) tape.
+Definition py_loc_oracle (c : bytes * node * list (bytes * option (bytes * bytes))) : N :=
+  let '(content, cst, tape) := c in
+  if negb (tree_forall (node_safe content) cst) || negb (tree_forall (quoted_token content) cst) then 8
+  else if negb (tape_sane tape) then 9
+  else match walk_pyproject (pep_of_tape tape) content cst with
+       | None => 6
+       | Some pk => if forallb (loc_sound_b content) pk then 0 else 6
+       end.
